@@ -35,8 +35,14 @@ LowerFacets(Pt, N) == {t \in Simplices(1..N, HDim(Pt)) : BaryDen(Pt, t) # 0 /\ \
 FacetVertices(Pt, N) == UNION {RangeOf(t) : t \in LowerFacets(Pt, N)}
 
 (* general position: every (d+1)-subset non-degenerate in x, and no sample exactly on the plane of d+1 others *)
+(* General position.  Samples may share a low-dimensional position (the property speaks of "other samples located at the  *)
+(* same low-dimensional position") as long as their targets differ; apart from that no simplex is degenerate and no    *)
+(* sample lies exactly on the plane of a simplex it does not belong to.                                                  *)
+SamePos(Pt, a, b) == XRow(Pt[a]) = XRow(Pt[b])
 GeneralPosition(Pt, N) ==
-    /\ \A t \in Simplices(1..N, HDim(Pt)) : BaryDen(Pt, t) # 0
-    /\ \A t \in Simplices(1..N, HDim(Pt)) : \A p \in (1..N) \ RangeOf(t) :
+    /\ \E t \in Simplices(1..N, HDim(Pt)) : BaryDen(Pt, t) # 0                  \* the footprint has full dimension
+    /\ \A a \in 1..N, b \in 1..N : (a # b /\ SamePos(Pt, a, b)) => Pt[a][1] # Pt[b][1]
+    /\ \A t \in Simplices(1..N, HDim(Pt)) : BaryDen(Pt, t) = 0 => \E i \in 1..Len(t), j \in 1..Len(t) : i # j /\ SamePos(Pt, t[i], t[j])
+    /\ \A t \in Simplices(1..N, HDim(Pt)) : BaryDen(Pt, t) # 0 => \A p \in (1..N) \ RangeOf(t) :
            LET r == Interp(Pt, t, XRow(Pt[p])) IN r[1] # Pt[p][1] * r[2]
 ===========================================================================
